@@ -1,0 +1,38 @@
+//go:build verif
+
+// Contracts for the deductive verifier in /verif (govc). Comment-only file.
+package funcGen
+
+// ---------------------------------------------------------------- S1: the stack-frame system
+//
+// fs(f): the number of stack slots a compiled function expects (-1: any number >= fsmin(f)); cl(f): the length of the
+// closure context it indexes. A callee may write value-stack storage at or above its own frame, memo fields of lists
+// and objects it allocates; it never shrinks the storage and never touches the caller's slots.
+
+//@ ghost func fs(f any) int
+//@ ghost func fsmin(f any) int
+//@ ghost func cl(f any) int
+
+//@ predicate validStack(s any) = s.storage != nil && 0 <= s.offs && 0 <= s.size && s.offs+s.size <= len(s.storage.data)
+//@ predicate slotsNonNil(s any) = forall i in 0..s.size :: nonnil(s.storage.data[s.offs+i])
+
+//@ type-contract ParserFunc
+//@   option params=stack,closureStore
+//@   requires[nonnil] self != nil
+//@   requires[stack] validStack(stack)
+//@   requires[slots] (fs(self) >= 0 ==> stack.size == fs(self)) && (fs(self) < 0 ==> stack.size >= fsmin(self))
+//@   requires[context] len(closureStore) >= cl(self)
+//@   ensures result1 == nil ==> nonnil(result0)
+//@   ensures stack.storage.data == old(stack.storage.data) || len(stack.storage.data) >= old(len(stack.storage.data))
+//@   ensures forall i in 0..stack.offs+stack.size :: stack.storage.data[i] == old(stack.storage.data[i])
+//@   assigns any value.List.items, any value.List.itemsPresent, any value.List.iterable, any stackStorage[V].data, any []V
+
+// a Function value: the arity it declares is the frame size its code was compiled for
+//@ representation Function: self.Func != nil && (self.Args >= 0 ==> fs(self.Func) == self.Args) && (self.Args < 0 ==> fs(self.Func) < 0 && fsmin(self.Func) <= 1) && cl(self.Func) == 0
+
+//@ interface-contract OperatorImpl.Calc
+//@   option no-impl-check
+//@   requires validStack(st)
+//@   ensures len(st.storage.data) >= old(len(st.storage.data))
+//@   ensures forall i in 0..st.offs+st.size :: st.storage.data[i] == old(st.storage.data[i])
+//@   assigns any value.List.items, any value.List.itemsPresent, any value.List.iterable, any stackStorage[V].data, any []V
